@@ -152,6 +152,9 @@ func (e *Exec) verifIntrinsic(caller *frame, name string, args []Value) Value {
 	case "verifUnfreeze":
 		e.unfreeze()
 		return nil
+	case "verifGo":
+		e.spawn(caller, args[0], nil)
+		return nil
 	case "verifJoin":
 		e.joinAll()
 		return nil
